@@ -1,7 +1,7 @@
 """C11 - runs are deterministic and independent of process history.
 
 Search over run histories issued through the programmatic entry point in ONE
-process: every sequence of <=2 (thorough <=3) runs from an alphabet of 19 run
+process: every sequence of <=2 (thorough <=3) runs from an alphabet of 20 run
 descriptors (successful and failing) is executed in a fresh child process;
 each run's PQR bytes must equal the bytes the same run produces alone in a
 fresh process.  After every run a structural fingerprint of pdb2pqr's
@@ -35,8 +35,8 @@ ASSUMPTIONS = [
     "process with PYTHONHASHSEED=0",
 ]
 BOUND = {
-    "quick": "19 single runs x 4 hash seeds; all 361 histories of length 2; 57 interleaved repetition histories of length 11-13 (every run 6-7 times with the others in between)",
-    "thorough": "quick + all 6859 histories of length 3 + 8 hash seeds",
+    "quick": "20 single runs x 4 hash seeds; all 400 histories of length 2; 80 interleaved repetition histories of length 11-13 (every run 6-7 times with the others in between)",
+    "thorough": "quick + all 8000 histories of length 3 + 8 hash seeds",
 }
 
 ETHANOL = (engine.REPO / "tests/data/ethanol.mol2")
@@ -44,7 +44,7 @@ RUNS = ["pep_amber", "pep_parse_opts", "strand_charmm", "titrated",
         "ligand", "clean", "fail_parse", "fail_charge", "userff_ok",
         "repair", "bare_model", "two_models", "fail_gap", "cif_models",
         "cif_layout2", "propka_a", "propka_b", "c2_symmetric",
-        "flip_ends"]
+        "flip_ends", "hidden_chain"]
 
 
 def execute(rid):
@@ -64,6 +64,17 @@ def execute(rid):
             "--ff=PARSE", "--neutraln", "--whitespace", "--keep-chain",
             "--ffout=CHARMM", "--pdb-output=@out:m.pdb",
             "--apbs-input=@out:a.in"]), meta
+    if rid == "hidden_chain":
+        # two peptides sharing one chain id without TER, the first ending in
+        # OXT: the second is moved to an unused chain id, which --keep-chain
+        # shows in the output
+        a = build.build_peptide(["SER", "ALA", "LYS"], chain="A")
+        b = build.build_peptide(["GLU", "GLY", "THR"], chain="A", start=4,
+                                origin=(0.0, 0.0, 20.0))
+        for at in b:
+            at["res_idx"] += 3
+        return pipeline.run(build.pdb_text(a + b, ter=False),
+                            ["--ff=AMBER", "--keep-chain"]), meta
     if rid == "strand_charmm":
         atoms = build.build_strand(["DA", "DT", "DG"])
         return pipeline.run(build.pdb_text(atoms), ["--ff=CHARMM"]), meta
